@@ -68,6 +68,9 @@ CATALOGUE = {
     "schema-input-lists-noinput": ("utype/specs/json_schema/generator.py", "            if f.always_no_input(options or self.options):\n                return None", "            if f.always_no_input(options or self.options) and not f.no_input:\n                return None", ["C13"]),
     "schema-addition-false-omitted": ("utype/specs/json_schema/generator.py", "        addition = options.addition\n        if addition is not None:\n            if isinstance(addition, type):", "        addition = options.addition\n        if addition:\n            if isinstance(addition, type):", ["C13"]),
     "map-args-consume-input": (R, "        for _key, _val in value.items():\n            with context.enter(route=f\"{_key}<key>\") as key_context:", "        for _key, _val in list(value.items()):\n            if isinstance(_val, list) and _val:\n                _val.pop()\n            with context.enter(route=f\"{_key}<key>\") as key_context:", ["C19"]),
+    "seq-args-fourth-raw": (R, "        for i, item in enumerate(value):\n            with context.enter(route=i) as arg_context:\n                try:\n                    result.append(", "        for i, item in enumerate(value):\n            if i == 3:\n                result.append(item)\n                continue\n            with context.enter(route=i) as arg_context:\n                try:\n                    result.append(", ["C01"]),
+    "map-none-values-raw": (R, "            if value_type:\n                with context.enter(route=key) as value_context:", "            if value_type and _val is not None:\n                with context.enter(route=key) as value_context:", ["C01"]),
+    "tuple-last-position-raw": (R, "                try:\n                    result.append(\n                        arg_context.transformer.apply(value[i], arg, func=func)\n                    )", "                try:\n                    result.append(\n                        arg_context.transformer.apply(value[i], arg, func=func) if i < 2 else value[i]\n                    )", ["C01"]),
     "datetime-offset-plus-only": (T, "        if '+' in str(data) or neg_offset:", "        if '+' in str(data):", ["C14"]),
 }
 
